@@ -66,6 +66,19 @@ type Clause struct {
 	Expr Expr
 	Src  string
 	Name string // optional label "name:" prefix
+	Ret  int    // ensures only: restrict to the return statement with this ordinal (0 = all)
+	Site string // assert only: call site after which the assertion stands
+	Local bool  // ensures only: proved for the function but not assumed at its call sites
+}
+
+// CallSiteSpec: an assumed description of the effect of one particular call (callee without contract),
+// written in the caller's vocabulary. Listed as an assumption in the evidence.
+type CallSiteSpec struct {
+	Modifies []string
+	Ensures  []Clause
+	Requires []Clause
+	Closure  string
+	Why      string
 }
 
 type LoopSpec struct {
@@ -93,6 +106,8 @@ type FuncContract struct {
 	Trusted    string
 	AllowPanic bool
 	Notes      []string
+	CallSites  map[string]*CallSiteSpec
+	Asserts    []Clause
 	File       string
 	Line       int
 }
@@ -111,7 +126,7 @@ type PkgContracts struct {
 var clauseKeywords = map[string]bool{
 	"pred": true, "spec": true, "pool": true, "ufun": true, "axiom": true, "lemma": true, "func": true, "extern": true,
 	"props": true, "mode": true, "requires": true, "ensures": true, "modifies": true, "loop": true,
-	"assume": true, "trusted": true, "ghost": true, "allow-panic": true, "note": true,
+	"assume": true, "trusted": true, "ghost": true, "allow-panic": true, "note": true, "callsite": true, "assert": true,
 }
 
 func parseParams(s string) ([]Param, error) {
@@ -360,11 +375,82 @@ func parseContractFile(path string, pc *PkgContracts) error {
 				}
 				cur.Requires = append(cur.Requires, cl)
 			case "ensures":
-				cl, err := mkClause(c, c.text)
+				text := c.text
+				ret := 0
+				local := false
+				if strings.HasPrefix(text, "@local ") {
+					local = true
+					text = strings.TrimSpace(strings.TrimPrefix(text, "@local"))
+				}
+				if strings.HasPrefix(text, "@ret") {
+					// clause restricted to one return statement (by ordinal)
+					f := strings.Fields(text)[0]
+					fmt.Sscanf(f, "@ret%d", &ret)
+					text = strings.TrimSpace(strings.TrimPrefix(text, f))
+				}
+				cl, err := mkClause(c, text)
 				if err != nil {
 					return err
 				}
+				cl.Ret = ret
+				cl.Local = local
 				cur.Ensures = append(cur.Ensures, cl)
+			case "callsite":
+				// callsite CALLEE#N (modifies LOCS | ensures EXPR | requires EXPR): assumed effect of one call
+				f := strings.Fields(c.text)
+				if len(f) < 3 {
+					return fail(c, "bad callsite clause")
+				}
+				if cur.CallSites == nil {
+					cur.CallSites = map[string]*CallSiteSpec{}
+				}
+				cs := cur.CallSites[f[0]]
+				if cs == nil {
+					cs = &CallSiteSpec{}
+					cur.CallSites[f[0]] = cs
+				}
+				rest := strings.TrimSpace(strings.TrimPrefix(strings.TrimSpace(strings.TrimPrefix(c.text, f[0])), f[1]))
+				switch f[1] {
+				case "modifies":
+					for _, m := range strings.Split(rest, ",") {
+						if m = strings.TrimSpace(m); m != "" {
+							cs.Modifies = append(cs.Modifies, m)
+						}
+					}
+				case "ensures":
+					cl, err := mkClause(c, rest)
+					if err != nil {
+						return err
+					}
+					cs.Ensures = append(cs.Ensures, cl)
+				case "requires":
+					cl, err := mkClause(c, rest)
+					if err != nil {
+						return err
+					}
+					cs.Requires = append(cs.Requires, cl)
+				case "closure":
+					cs.Closure = rest
+				case "why":
+					cs.Why = rest
+				default:
+					return fail(c, "bad callsite clause kind %q", f[1])
+				}
+			case "assert":
+				// assert LABEL after CALLEE#N: EXPR    -- intermediate assertion (a cut): proved right after that call
+				// (once its results have been assigned), then available to everything that follows
+				f := strings.Fields(c.text)
+				if len(f) < 4 || f[1] != "after" {
+					return fail(c, "assert needs `LABEL after CALLEE#N: EXPR`")
+				}
+				site := strings.TrimSuffix(f[2], ":")
+				i := strings.Index(c.text, f[2])
+				rest := strings.TrimSpace(strings.TrimPrefix(strings.TrimSpace(c.text[i+len(f[2]):]), ":"))
+				e, err := ParseExpr(rest)
+				if err != nil {
+					return fail(c, "%v", err)
+				}
+				cur.Asserts = append(cur.Asserts, Clause{Expr: e, Src: rest, Name: f[0], Site: site})
 			case "modifies":
 				cur.HasModifies = true
 				for _, m := range strings.Split(c.text, ",") {
